@@ -171,6 +171,17 @@ pub fn cmd_codec(args: &[String]) {
             if let Ok(p2) = serde_json::from_str::<dryoc::pwhash::PwHash<Vec<u8>, Vec<u8>>>(&serde_json::to_string(&ph).unwrap()) {
                 if p2.verify(&msg).is_err() { rep.fail("PwHash: decoded object no longer verifies", json!({"len": len})); }
             }
+            // the string encoding of the password-hash object: to_string then from_string reproduces an equal object
+            rep.evaluations += 1;
+            rep.case(&format!("pwhash-string|{}", len));
+            match catch(|| dryoc::pwhash::PwHash::<Vec<u8>, Vec<u8>>::from_string(&ph.to_string())) {
+                Ok(Ok(p3)) => {
+                    if serde_json::to_value(&p3).unwrap() != serde_json::to_value(&ph).unwrap() { rep.fail("PwHash: to_string then from_string yields a different object", json!({"original": serde_json::to_value(&ph).unwrap(), "decoded": serde_json::to_value(&p3).unwrap()})); }
+                    if p3.verify(&msg).is_err() { rep.fail("PwHash: object parsed from its own string no longer verifies", json!({"len": len})); }
+                }
+                Ok(Err(e)) => rep.fail("PwHash: from_string rejects to_string output", json!({"err": format!("{:?}", e)})),
+                Err(p) => rep.fail("PwHash: from_string panics on to_string output", json!({"panic": p})),
+            }
         }
         #[cfg(feature = "nightly")]
         {
